@@ -63,6 +63,7 @@ class ForcedExecutor:
 
     def __init__(self, order, rng=None):
         self.order, self.rng = order, rng
+        self._verif_cpu = 1
         self._max_workers = 1          # the attribute real executors carry: jobs here run one at a time, in the forced order
         self.events = []
         self.pending = []
@@ -121,6 +122,13 @@ def snapshot(cont):
     return ([(a, u.segment.start, u.segment.end, u.annotation) for a, u in cont], list(cont.annotators), list(cont.categories), cont.bounds)
 
 
+def real_pool(n):
+    """stands for the ThreadPoolExecutor class: a real pool of n workers, on a machine that reports n processors"""
+    f = lambda *a, **k: ThreadPoolExecutor(max_workers=n)
+    f._verif_cpu = n
+    return f
+
+
 def run_config(pa, cfg, executor_factory, record=True):
     """returns (result tuple as hex strings, events, draw log, argument-unchanged?)"""
     cont = gen.build_continuum(pa, cfg["units"])
@@ -130,6 +138,12 @@ def run_config(pa, cfg, executor_factory, record=True):
     orig = pa.continuum.ThreadPoolExecutor
     ex = executor_factory()
     pa.continuum.ThreadPoolExecutor = ex
+    # the library sizes its pool with os.cpu_count(): a run "with N workers" is a run on a machine that reports N (anything derived from that
+    # number - not only the pool size - must leave the seeded results unchanged)
+    orig_cpu = os.cpu_count
+    ncpu = getattr(ex, "_verif_cpu", None)
+    if ncpu is not None:
+        os.cpu_count = lambda: ncpu
     np.random.seed(cfg["numpy_seed"])
     try:
         with Draws() as dr:
@@ -148,6 +162,7 @@ def run_config(pa, cfg, executor_factory, record=True):
                         vals.append(float("nan"))
     finally:
         pa.continuum.ThreadPoolExecutor = orig
+        os.cpu_count = orig_cpu
         if hasattr(ex, "alive"):
             ex.alive = False
     cont.best_window_size = np.inf if cfg["mode"] != "fast" else cont.best_window_size
@@ -203,8 +218,8 @@ def run(rep, tier, seed, pa):
         schedules = [("fifo-now", lambda: ForcedExecutor("fifo-now")), ("fifo", lambda: ForcedExecutor("fifo")), ("lifo", lambda: ForcedExecutor("lifo")),
                      ("random-1", lambda: ForcedExecutor("random", rng_for(seed, "perm", ci, 1))), ("random-2", lambda: ForcedExecutor("random", rng_for(seed, "perm", ci, 2))),
                      ("delay-first", lambda: ForcedExecutor("delay-first")),
-                     ("pool-1", lambda: (lambda *a, **k: ThreadPoolExecutor(max_workers=1))), ("pool-2", lambda: (lambda *a, **k: ThreadPoolExecutor(max_workers=2))),
-                     ("pool-16", lambda: (lambda *a, **k: ThreadPoolExecutor(max_workers=16))), ("pool-16-again", lambda: (lambda *a, **k: ThreadPoolExecutor(max_workers=16)))]
+                     ("pool-1", lambda: real_pool(1)), ("pool-2", lambda: real_pool(2)), ("pool-7", lambda: real_pool(7)),
+                     ("pool-16", lambda: real_pool(16)), ("pool-16-again", lambda: real_pool(16))]
         ref = None
         for name, fac in schedules:
             try:
